@@ -311,6 +311,21 @@ def configs(tier: str):
                 for b in labs[1::2] + ['none']:
                     out.append(cfg10(span=span, n=n, op='getslice', a=a, b=b, step='sym' if n > 1 else 'none'))
                     out.append(cfg10(span=span, n=n, op='setslice', a=a, b=b))
+    # labels of ANOTHER TYPE that look like a present label: a non-integral float or a digit string on integer spans, a
+    # present string with a suffix / a prefix of one on string spans (a locator that converts the label to the span's
+    # element type would alias a present period)
+    for span in ('range', 'nd_int', 'list_str', 'nd_str'):
+        for n in (2, 3) if tier == 'quick' else (1, 2, 3, 5):
+            labs = _labels(cfg10(span=span, n=n), SymSrc())
+            if span in ('range', 'nd_int'):
+                odd = [labs[-1] + 0.5, labs[0] - 0.5, str(labs[-1]), float(labs[0]) + 1e-9]
+            else:
+                odd = [labs[-1] + 'x', labs[0] + '10', labs[0][:-1], ' ' + labs[0], labs[-1] + ' ']
+            for a in odd:
+                out.append(cfg10(span=span, n=n, op='get', a=a))
+                out.append(cfg10(span=span, n=n, op='set', a=a))
+                out.append(cfg10(span=span, n=n, op='getslice', a=a, b='none'))
+                out.append(cfg10(span=span, n=n, op='setslice', a='none', b=a))
     for span in ('list_str', 'nd_str', 'list_mixed'):
         for n in (1, 3) if tier == 'quick' else (1, 2, 3, 4, 5):
             labs = _labels(cfg10(span=span, n=n), SymSrc())
@@ -337,7 +352,7 @@ def finding_key(cfg, cand) -> str:
     bad = cand['replay']['bad']
     labs = cand['inputs'].get('i', {})
     vals = [labs.get(f'lab_{j}') for j in range(cfg['n'])]
-    if cfg['op'] in ('getslice', 'setslice') and (cfg['a'] == 'none' or cfg['b'] == 'none') and len(set(vals)) < len(vals):
+    if cfg['op'] in ('getslice', 'setslice') and (cfg['a'] == 'none' or cfg['b'] == 'none') and None not in vals and len(set(vals)) < len(vals):
         return 'open-ended-slice-follows-repeated-label'
     return f"{cfg['span']},n={cfg['n']},{cfg['op']},a={cfg['a']},b={cfg['b']},step={cfg['step']}:{bad[0] if bad else '?'}"
 
